@@ -495,13 +495,36 @@ def rule_input(uid):
     return p if os.path.exists(p) else None
 
 
+def exotic_own_cases():
+    """(file, rule, option, value): on every hand-written /verif/corpus design, every documented
+    non-boolean option value (blank-line `style` family included) of every rule whose construct
+    occurs in that design, one rule at a time."""
+    dom = workload.option_domains()
+    own = sorted(p for p, s in workload.corpus() if p.startswith(os.path.join(workload.HERE, "corpus")))
+    out = []
+    for p in own:
+        text = workload.read(p).decode("latin-1").lower()
+        for r in runner.RULES:
+            if r[1] == 0:
+                continue
+            word = r[0].rsplit("_", 1)[0].split("_")[0]
+            if word not in text:
+                continue
+            for o in r[6]:
+                if o in dom and o not in ("case", "indent_size", "length"):
+                    for v in dom[o]:
+                        if v not in ("yes", "no", "require_blank_line"):
+                            out.append((p, r[0], o, v))
+    return out
+
+
 def run_exotic(job, env):
     """One documented non-boolean option value on the rule's own test input: reference, canonical
     two-pass check (repeatability on the same objects), focus schedule."""
     out = common.JobResult(job)
-    trs = exotic_triples()
-    for uid, opt, val in trs[job["i"] :: job["of"]]:
-        p = rule_input(uid)
+    trs = [(None, u, o, v) for (u, o, v) in exotic_triples()] + exotic_own_cases()
+    for own_file, uid, opt, val in trs[job["i"] :: job["of"]]:
+        p = own_file or rule_input(uid)
         if p is None:
             out.skipped("no-test-input-for-rule")
             continue
